@@ -47,6 +47,7 @@ structure ConstFact where
   exported : Bool
   comment : String
   specIndex : Nat
+  str : String := ""
 deriving Repr, Inhabited
 
 structure PkgFacts where
